@@ -63,6 +63,7 @@ type exStats struct {
 	FailedCommits   int            `json:"failed_commits"`
 	FailedPresent   int            `json:"failed_present"`
 	Reopens         int            `json:"reopens"`
+	ModeFlips       int            `json:"mode_flips"`
 	MaxReaders      int            `json:"max_readers"`
 	ReclaimChecks   int            `json:"reclaim_checks"`
 	BeginNoReaders  int            `json:"writer_begins_without_readers"`
@@ -513,6 +514,13 @@ func (ex *explorer) run(cs *exCase) (viol []exec.Violation) {
 			if ex.r.Exec(&gen.Step{Op: "close"}) {
 				return
 			}
+			// the options of a session may differ from those of the previous one: the backend (A odd) and,
+			// persistently for the rest of the sequence, freelist-sync (A mod 4 >= 2: a file last written with a
+			// persisted list is continued without one and vice versa)
+			if ev.A%4 >= 2 {
+				cs.Opts.NoFreelistSync = !cs.Opts.NoFreelistSync
+				ex.st.ModeFlips++
+			}
 			o := cs.Opts
 			if ev.A%2 == 1 {
 				if o.Freelist == "array" {
@@ -681,6 +689,11 @@ func explorerCases(seed int64, enumLen int, nRandom int, lenLo, lenHi int) []*ex
 		o := cfgs[i%len(cfgs)]
 		// two warm-up commits so that there are free pages to recycle
 		full := append([]exEvent{{K: "WC"}, {K: "WC"}}, evs...)
+		for k := range full {
+			if full[k].K == "RO" {
+				full[k].A = (i/len(cfgs) + k) % 4 // reopen variants: same options, other backend, other freelist-sync mode, both
+			}
+		}
 		// tail: close the readers' window with two more writers so that a page released too early is certainly rewritten
 		full = append(full, exEvent{K: "WC"}, exEvent{K: "WC"})
 		out = append(out, &exCase{Name: "enum", Seed: seed, Case: ci, Opts: o, Batches: explorerBatches(r, o.PageSize, 6), Events: full})
@@ -776,6 +789,7 @@ func (c *Ctx) runExplorer(cases []*exCase, mon exMon, batch int, keep func(kind 
 			a.FailedCommits += s.FailedCommits
 			a.FailedPresent += s.FailedPresent
 			a.Reopens += s.Reopens
+			a.ModeFlips += s.ModeFlips
 			a.ReclaimChecks += s.ReclaimChecks
 			a.BeginNoReaders += s.BeginNoReaders
 			a.PagesRecycled += s.PagesRecycled
@@ -829,6 +843,7 @@ func (a *exAgg) coverage(rule string) map[string]any {
 		"failed_commits":                             a.St.FailedCommits,
 		"failed_commits_present":                     a.St.FailedPresent,
 		"reopens":                                    a.St.Reopens,
+		"reopens_switching_freelist_sync":            a.St.ModeFlips,
 		"max_simultaneous_readers":                   a.St.MaxReaders,
 		"allocator_invariant_checks":                 a.St.ReclaimChecks,
 		"writer_begins_with_no_reader_checked":       a.St.BeginNoReaders,
